@@ -564,7 +564,8 @@ struct Extractor : RecursiveASTVisitor<Extractor> {
 		// functions of the library under analysis, plus explicit probes of the witness unit (wit::probe_*): bodies whose
 		// resolved callees are themselves the evidence (overload-resolution witnesses)
 		if(!underRoot(fd->getLocation())
-				&& !(sm.isInMainFile(sm.getExpansionLoc(fd->getLocation())) && fd->getQualifiedNameAsString().rfind("wit::probe_", 0) == 0))
+				&& fd->getQualifiedNameAsString().rfind("wit::probe_", 0) != 0
+				&& fd->getQualifiedNameAsString().rfind("wit::SelfInitProbe", 0) != 0)
 			return;
 		if(!doneFns.insert(fd->getCanonicalDecl()).second) return;
 		const Stmt *body = fd->getBody();
@@ -624,6 +625,15 @@ struct Extractor : RecursiveASTVisitor<Extractor> {
 		if(fd->isConstexpr()) J.attribute("constexpr", true);
 		if(fd->isNoReturn()) J.attribute("noreturn", true);
 		if(fd->isVariadic()) J.attribute("variadic", true);
+		if(fd->hasAttrs()) {
+			// contracts stated to the optimiser (returns_nonnull, malloc, pure, ...): the rules hold them against the body
+			J.attributeBegin("attrs");
+			J.arrayBegin();
+			for(auto *a : fd->attrs())
+				J.value(a->getSpelling());
+			J.arrayEnd();
+			J.attributeEnd();
+		}
 		switch(fd->getAccess()) {
 		case AS_public: J.attribute("access", "public"); break;
 		case AS_protected: J.attribute("access", "protected"); break;
@@ -924,6 +934,11 @@ struct Extractor : RecursiveASTVisitor<Extractor> {
 			if(f->getType().isConstQualified()) J.attribute("const", true);
 			if(f->getType()->isPointerType()) J.attribute("ptr", true);
 			if(f->hasInClassInitializer()) J.attribute("dmi", true);
+			if(f->isBitField()) J.attribute("bitw", (int64_t)f->getBitWidthValue(ctx));
+			if(f->getType()->isIntegerType()) {
+				J.attribute("bits", (int64_t)ctx.getIntWidth(f->getType()));
+				J.attribute("sgn", f->getType()->isSignedIntegerType());
+			}
 			J.objectEnd();
 		}
 		J.arrayEnd();
